@@ -4,7 +4,7 @@ import GoaVerif.Model.Closure
 `closure <design>` → `closed` | `dangling <kind>:<owner>:<name> …` (names hex-encoded)
 
 design: `D <schemes> <errors> <httpErrors> <apiSchemes> <nS> (S <name> <errors> <httpErrors> <schemes> <nM>
- (M <name> <payload> <result> <errors> <params> <headers> <cookies> <body> <respAttrs> <httpErrors> <schemes> <view|~> <views>)*)*`
+ (M <name> <payload> <result> <errors> <params> <headers> <cookies> <body> <respAttrs> <httpErrors> <schemes> <view|~> <views> <attrs of view>*)*)*`
 where every list is `L <n> <hex>*`.
 -/
 namespace GoaVerif.Drive.Closure
@@ -41,7 +41,9 @@ def pMethod : List String → Option (Method × List String)
     | v :: ts =>
       let view ← if v == "~" then some none else (hexToString v).map some
       let (views, ts) ← pList ts
-      pure (⟨← hexToString name, payload, result, errors, params, headers, cookies, body, resp, herrs, schemes, view, views⟩, ts)
+      -- one attribute list per view, in the order of `views`
+      let (vattrs, ts) ← takeN pList views.length ts
+      pure (⟨← hexToString name, payload, result, errors, params, headers, cookies, body, resp, herrs, schemes, view, views, views.zip vattrs⟩, ts)
     | [] => none
   | _ => none
 
